@@ -914,7 +914,8 @@ class BptkServer(Flask):
                 instance.lock()
                 yield "["
                 first = True
-                while instance.progress() <= 1.0:
+                # stream until the session clock has passed the stop time (the ratio step/stoptime says nothing for stop times <= 0)
+                while instance.session_state["step"] <= instance.session_state["stoptime"]:
                     if first:
                         first = False
                     else:
